@@ -638,6 +638,28 @@ def d2_mutations(sess, d2, rng, full, other_hello=None):
         ("sig-truncated", W.join_server_hello(body, rootder, payload, sig[:-1])),
         ("sig-empty", W.join_server_hello(body, rootder, payload, b"")),
     ]
+    # type confusion: the UNSIGNED key-exchange parameters (attacker's ephemeral key, salt, token) offered under the type
+    # id of every OTHER class registered at run time, in the layouts a Serializable body can have (bare fields / field
+    # count + fields / named-field count + fields) — whatever class Serializable.loadb builds from a clear SERVER_HELLO,
+    # only HandshakeServerHelloMessage.deserialize verifies a signature
+    import io as _io
+    from mpgameserver import serializable as _SZ, connection as _C
+
+    def _ser(*vals):
+        s = _io.BytesIO()
+        for v in vals:
+            _SZ.serialize_value(s, v)
+        return s.getvalue()
+    _der = ek.getPublicKey().getBytes()
+    confusion = []
+    for tid in sorted(_SZ.SerializableType.registry):
+        if tid == _C.HandshakeServerHelloMessage.type_id:
+            continue
+        hd = struct.pack(">H", tid)
+        confusion.append(("as-type-%d(bare fields)" % tid, hd + _ser(_der, salt, tok)))
+        confusion.append(("as-type-%d(count+fields)" % tid, hd + _ser(3, _der, salt, tok)))
+    confusion.append(("bare-fields(no type id)", _ser(_der, salt, tok)))
+    variants = confusion + variants
     # payload fields altered under the genuine signature
     for name, eph, sl, tk in (("eph-swapped", ek.getPublicKey(), salt, tok), ("salt-altered", srv.session_key.getPublicKey(), bytes([salt[0] ^ 1]) + salt[1:], tok),
                               ("token-altered", srv.session_key.getPublicKey(), salt, tok ^ 1), ("token-zero", srv.session_key.getPublicKey(), salt, 0)):
